@@ -125,11 +125,11 @@ SetCol(o, c, vals) ==      \* self.data[c] = vals : replace, or append a new col
 (* ---- natural chromosome order (chromsort.sorter_chrom via Text.ChromKey) -------------------- *)
 SortRows(w, o) ==        \* sort_values(by=[key, start, end], kind="mergesort"): stable
     LET cj == ColPos(o.cols, "chromosome")  sj == ColPos(o.cols, "start")  ej == ColPos(o.cols, "end")
-        keyed == [k \in Idx(o.rows) |-> <<ChromKey(NameOf(w, o.rows[k][cj])), o.rows[k][sj], o.rows[k][ej], o.rows[k]>>]
+        keyed == TLCEval([k \in Idx(o.rows) |-> <<ChromKey(NameOf(w, o.rows[k][cj])), o.rows[k][sj], o.rows[k][ej], o.rows[k]>>])
         Less(x, y) == \/ KeyTupleLess(x[1], y[1])
                       \/ x[1] = y[1] /\ x[2] < y[2]
                       \/ x[1] = y[1] /\ x[2] = y[2] /\ x[3] < y[3]
-        srt == StableSortBy(keyed, Less)
+        srt == TLCEval(StableSortBy(keyed, Less))
     IN [k \in Idx(srt) |-> srt[k][4]]
 Sorted(w, o) == [o EXCEPT !.rows = SortRows(w, o), !.index = DefaultIndex(N(o))]     \* .reset_index(drop=True)
 
@@ -229,8 +229,8 @@ LabelOf(w, o, k) == NameOf(w, Cell(o, k, "chromosome")) \o <<ch_colon>> \o IntTe
 
 Step(w, objs, al, ev) ==
     LET m == ev.m  p == ev.p  cs == ev.cs  res == ev.res
-        o == IF ev.recv = "" THEN Blank("GA", {}) ELSE objs[ev.recv]
-        a == IF ev.arg = "" THEN Blank("GA", {}) ELSE objs[ev.arg]
+        o == TLCEval(IF ev.recv = "" THEN Blank("GA", {}) ELSE objs[ev.recv])
+        a == TLCEval(IF ev.arg = "" THEN Blank("GA", {}) ELSE objs[ev.arg])
         n == N(o)
     IN
     CASE m = "new_none" -> NewObj(objs, al, res, Ctor(ClsOf(p[1]), <<>>, <<>>, <<>>, {}))
@@ -319,8 +319,8 @@ Step(w, objs, al, ev) ==
             LET gs == ChromGroups(o) IN
             Observe(objs, al, [NoRet EXCEPT !.g = [q \in Idx(gs) |-> [key |-> gs[q], st |-> SubObj(o, GroupPos(o, gs[q])).st]]])
       [] m = "by_arm" ->            \* first: self.data.chromosome = self.data.chromosome.astype(str)  (in place!)
-            LET oc == [o EXCEPT !.rows = [k \in 1..n |-> [o.rows[k] EXCEPT ![ColPos(o.cols, "chromosome")] = Abs(@)]],
-                                !.dt = DtOf(o.cls, o.cols, <<>>)]
+            LET oc == TLCEval([o EXCEPT !.rows = [k \in 1..n |-> [o.rows[k] EXCEPT ![ColPos(o.cols, "chromosome")] = Abs(@)]],
+                                        !.dt = DtOf(o.cls, o.cols, <<>>)])
                 gs == ChromGroups(oc)
                 arms(c) == LET K == GroupPos(oc, c)  s == ArmSplit(oc, K, p[1], p[2]) IN
                            IF s = 0 THEN <<[key |-> c, st |-> SubObj(oc, K).st]>>
@@ -723,7 +723,7 @@ Premise(r) ==
 (* ---- model drift: the A-layer's prediction against the observation ------------------------------ *)
 Predict(r) == Step(r.w, r.pre, r.al, r.ev)
 DriftTags(r) ==
-    LET s == Predict(r)  ev == r.ev IN
+    LET s == TLCEval(Predict(r))  ev == r.ev IN     \* TLCEval: evaluate once (LET definitions are otherwise re-evaluated per use)
     (IF s.err # ev.err /\ ~(s.err = "ANY" /\ ev.err # "") /\ s.err # "MAYBE" THEN {"err"} ELSE {})
     \cup (IF ~s.dc /\ s.err = "" /\ ev.err = "" /\ s.ret # ev.ret THEN {"ret"} ELSE {})
     \cup (IF s.err = "" /\ ev.err = "" /\ s.alias # ev.alias THEN {"alias"} ELSE {})
